@@ -163,18 +163,33 @@ def task_classify(pr, repo):
         ctx.notes.append(str(bad[:5]))
     pr.explore(ex, t_lig, 'is_ligand_group_by_groups table')
 
-    def t_dispatch(ex, ctx):
-        order = []
-        for n in ('is_protein_group', 'is_ion_group', 'is_ligand_group_by_groups'):
-            ex.contracts[GM + n] = (lambda n: lambda ex, ctx_, fi, a, k, so: order.append(n))(n)
-        at = mkatom(repo, groups_extracted=False)
-        r = ex.call_function(repo.func(GM + 'is_group'), [params, at])
-        ctx.oblige('CL: is_group tries protein, ion, ligand classification in this order, marks the atom as checked, None if none applies',
-                   order == ['is_protein_group', 'is_ion_group', 'is_ligand_group_by_groups'] and r is None
-                   and at.attrs['groups_extracted'] is True)
-        for n in ('is_protein_group', 'is_ion_group', 'is_ligand_group_by_groups'):
-            del ex.contracts[GM + n]
-    pr.explore(ex, t_dispatch, 'is_group')
+    task_dispatch(pr, repo)
+
+def task_dispatch(pr, repo):
+    """CL: is_group tries the protein, ion and ligand classification in this order for every atom - whatever the record type and
+    whatever residue selection (titrate-only list) the run carries: the selection decides what is titrated, not which groups exist."""
+    ex = Executor(repo)
+    pr.under_contract(repo.func(GM + 'is_group'))
+    p = cfg.parameters()
+    params = record('P', None, protein_group_mapping=dict(p.protein_group_mapping), ions=dict(p.ions), ligand_typing=p.ligand_typing)
+    for typ in ('atom', 'hetatm'):
+        for sel in ('no options', None, [], [('A', 1, ' ')], [('B', 7, ' ')]):
+            def t_dispatch(ex, ctx, typ=typ, sel=sel):
+                order = []
+                for n in ('is_protein_group', 'is_ion_group', 'is_ligand_group_by_groups'):
+                    ex.contracts[GM + n] = (lambda n: lambda ex, ctx_, fi, a, k, so: order.append(n))(n)
+                mol = None if sel == 'no options' else record('mol', None, options=record('options', None, titrate_only=sel, chains=None,
+                                                                                           keep_protons=False, protonate_all=False))
+                at = mkatom(repo, groups_extracted=False, type=typ, molecular_container=mol, conformation_container=None, icode=' ',
+                            res_name='LIG' if typ == 'hetatm' else 'ALA')
+                r = ex.call_function(repo.func(GM + 'is_group'), [params, at])
+                ctx.oblige('CL[%s record, residue selection %r]: is_group tries protein, ion, ligand classification in this order, marks '
+                           'the atom as checked, None if none applies' % (typ, sel),
+                           order == ['is_protein_group', 'is_ion_group', 'is_ligand_group_by_groups'] and r is None
+                           and at.attrs['groups_extracted'] is True)
+                for n in ('is_protein_group', 'is_ion_group', 'is_ligand_group_by_groups'):
+                    del ex.contracts[GM + n]
+            pr.explore(ex, t_dispatch, 'is_group %s %r' % (typ, sel))
 
 
 def task_setup(pr, repo):
